@@ -102,6 +102,8 @@ def asp_items(g, ft, pr):
         (c,) = find_calls(fs, 'angular_spectrum')
         args = {k.arg: u(k.value) for k in c.keywords}
         ok2 = u(c.args[0]) == 'self.data' and args == {'wvl': 'self.wavelength', 'dx': 'self.dx', 'z': 'dz', 'Q': 'Q', 'tf': 'tf'}
+        if not ok2:
+            raise Untranslatable(f'free_space call not recognised: {u(c)}')
         return (f'def aspIsIfft2OfFft2TimesTf : Bool := {"true" if ok else "false"}\n'
                 f'def freeSpaceDelegates : Bool := {"true" if ok2 else "false"}')
     g.item('asp.operator', 'prysm/propagation.py:angular_spectrum', lambda: get_def(pr, 'angular_spectrum'), op,
